@@ -241,8 +241,14 @@ def r4(ctx, cfg):
             ok = is_param(fnv, "raw_fn") or contains(fnv, lambda x: x[0] == "param" and x[2] == "raw_fn")
             dec = peel(args[0])
             # closure parameters by position (closure-local names are free to change): _2 deps, then env[, info], msg
-            ok = ok and dec[0] == "call" and dec[1] in ("contracts::decustomize_deps_mut", "contracts::decustomize_deps") and \
-                contains(dec[2][0], lambda x: x[0] == "cparam" and x[1] == 2)
+            # the Deps / DepsMut handed on is the closure's own (re-typed by decustomize_deps[_mut] or in place: its storage
+            # and api are those of closure parameter _2)
+            if dec[0] == "call" and dec[1] in ("contracts::decustomize_deps_mut", "contracts::decustomize_deps"):
+                ok = ok and contains(dec[2][0], lambda x: x[0] == "cparam" and x[1] == 2)
+            else:
+                dd0 = dict(dec[2]) if dec[0] == "agg" and dec[1].startswith(("cosmwasm_std::Deps", "cosmwasm_std::DepsMut")) else {}
+                ok = ok and all(peel(dd0.get(fl, ("?",)))[0] == "field" and peel(dd0[fl])[2] == fl and peel(peel(dd0[fl])[1])[0] == "cparam" and peel(peel(dd0[fl])[1])[1] == 2
+                                for fl in ("storage", "api"))
             npos = 2 + (1 if with_info else 0)
             ok = ok and len(args) == 1 + npos and all(peel(x)[0] == "cparam" and peel(x)[1] == 3 + i for i, x in enumerate(args[1:]))
         ctx.ob(R, key, "wrapped-fn-gets-own-arguments", ok, "the wrapper calls %s" % d, fn=g, sample=d)
